@@ -616,10 +616,32 @@ def check_comments(ctx):
     ctx.floor('source map stores', stores, 1)
 
 
+def check_primitive_siblings(ctx):
+    """(d') the generic primitive strategies that the struct block replaces decode / encode the
+    same way: strict struct codec of exactly raw[offset:offset+size] (C05 R1 on Int), and the
+    struct_code of Data(n) is '<n>s'"""
+    from . import c05
+    repo = ctx.repo
+    c05.check_codecs(ctx, repo.cls('Int'))
+    dc = repo.cls('Data').methods.get('_compile')
+    ok = False
+    for n in ast.walk(dc.node):
+        if isinstance(n, ast.Assign) and canon(n.targets[0]) == 'self.struct_code':
+            ok = canon(n.value) == "('%is' % self.byte_count)"
+            st = stmt_text(n)
+            if ok:
+                ctx.holds('R2-struct-block', dc, st, "a constant-size byte string is the struct code '<n>s'", n.lineno, clause='d')
+            else:
+                ctx.violation('R2-struct-block', dc, st, "the struct code of Data(n) must be '%is' % byte_count", n.lineno, clause='d')
+    if not ok and not any(o.rule == 'R2-struct-block' and o.function.endswith('Data._compile') for o in ctx.obs):
+        ctx.undecided('R2-struct-block', dc, 'Data._compile', 'struct_code assignment not found', dc.node.lineno, clause='d')
+
+
 def check(ctx):
     check_skeletons(ctx)
     check_partition(ctx)
     check_struct_block(ctx)
+    check_primitive_siblings(ctx)
     check_options(ctx)
     check_comments(ctx)
     ctx.floor('drivers analysed', ctx.units.get('drivers', 0), 4)
